@@ -12,7 +12,14 @@ RULE = ('a case = {cfg, ops}: cfg picks deployable / CI-context-required / dismi
         '+/- {WIP, stacked PR, prio:high, do-not-test, bug}, status report (CI context / required status / optional status / '
         'required check-run; current or OLD head), test batch completes success|failure|cancelled, deploy batch completes, '
         'target branch moves (new sha or back to an old one), merge-conflict toggle, freeze/unfreeze, CI restart, update tick, '
-        'bare batch / github notification, and FAULT INJECTION: op fault(class, skip, n, kind, ttl) arms "the (skip+1)-th '
+        'bare batch / github notification, RE-ENTRANT DELIVERY: op during(class, skip, pre|post, event) arms "the event op '
+        '(open/push/close/reopen/review/label/status/test or deploy batch completion/target move, with its own deliver flag) '
+        'happens DURING the (skip+1)-th upcoming client call of this class" (same call classes as faults, armed for 3 entry '
+        'points): when the fake client reaches that call, ground truth changes and -- for a delivered event -- the webhook / '
+        'batch-callback entry point (notify_github_changed / notify_batch_changed) runs as a concurrent task while the update '
+        'that made the call is suspended in it (it sets its flag and returns: "already updating"); post = before the request '
+        'is served (the answer carries the change), pre = after the answer was computed (the answer is the old data); the '
+        'call then returns, or raises its injected fault; and FAULT INJECTION: op fault(class, skip, n, kind, ttl) arms "the (skip+1)-th '
         'upcoming client call of this class fails, n calls in a row (n=99: outage), armed for ttl entry points"; classes = '
         'GitHub refs|pulls|graphql|status|assignees|merge|gh-any, Batch list|bstatus|submit|cancel|batch-any; kinds = '
         'gidgethub 502 / 403, asyncio.TimeoutError, ServerDisconnectedError, aiohttp ClientResponseError for GitHub, '
@@ -25,8 +32,13 @@ RULE = ('a case = {cfg, ops}: cfg picks deployable / CI-context-required / dismi
         'changes and CI learns at a later update.  Operands are indices modulo the live objects; an op whose precondition '
         'fails is skipped and counted.  The generator mixes single ops with fragments "make green/approved, perturb, then '
         'deliver", "two test batches complete, one notification" (>= 2 PRs mergeable against one target commit), "arm a '
-        'fault, then an event" and "two green, fault, notification, follow-up notification"; 5 of 6 cases start with 2..3 '
-        'PRs.  Oracle: monitor on PUT /pulls/N/merge against ground truth at that instant.  Non-trivial: a merge attempt '
+        'fault, then an event", "two green, fault, notification, follow-up notification", "arm a mid-call event, then a '
+        'trigger", "a do-not-merge label / withdrawn approval / push / target move / close lands during a read of a refresh, '
+        'then a test batch turns green from idle" and "mid-call event + fault + trigger"; 5 of 6 cases start with 2..3 '
+        'PRs.  Oracle: monitor on PUT /pulls/N/merge against ground truth at that instant; a not-yet-read change is tolerated '
+        'as before EXCEPT when CI owes the read: a GitHub webhook that came after the change was accepted while an update was '
+        'running, that entry point is over (service idle again) and no refresh started since failed -> the merge is flagged '
+        '(webhook-accepted-while-updating-not-honoured:<fact>).  Non-trivial: a merge attempt '
         'for a PR that had a green batch which was afterwards invalidated by a head push or a target move (green < '
         'perturbation < attempt).')
 ASSUMPTIONS = [
@@ -44,8 +56,11 @@ ASSUMPTIONS = [
     'FAKED: Batch service = FakeBatchService (list_batches query terms k=v, !complete, !open, user:ci; newest first; fresh '
     'Batch objects per listing; status/cancel/delete/submit); db = authorized_shas / invalidated_batches lookups (all PR '
     'authors are in AUTHORIZED_USERS); gidgethub = tiny module with HTTPException/BadRequest(.status_code)',
-    'updates are driven one at a time to completion (no event lands between two GitHub calls of one _update); exceptions '
-    'leaving _update are swallowed as the webhook handler / update_loop do; only AssertionError, ValueError and the very '
+    'entry points are driven one at a time to completion; events land between entry points or, by op `during`, inside one '
+    'client call of the running update (ground truth change + the real notify_* entry point as a concurrent task on the same '
+    'loop, as aiohttp runs a webhook handler while update_loop / another handler is suspended in a request); a handler that '
+    'arrives while NO update is running is not generated mid-call (every client call is made under WatchedBranch.updating); '
+    'exceptions leaving _update are swallowed as the webhook handler / update_loop do; only AssertionError, ValueError and the very '
     'exception objects the fault plan injected are expected there, anything else is a harness error',
     'FAULT MODEL: fail-before-effect only (a request that was served but whose response was lost is NOT generated); '
     'GitHub calls go through the raw aiohttp session (no retry), so 5xx/403 HTTPException, total-timeout and disconnects '
@@ -59,6 +74,12 @@ ASSUMPTIONS = [
     'a clause is enforced strictly only if CI has read the fact (refs / pulls list / GraphQL of that PR) since the fact last '
     'changed, or the change was made by CI itself; a merge decided on a not-yet-delivered change is counted as '
     'stale_view:<fact>, not flagged (inherent webhook race; GitHub enforces head sha by 409)',
+    'the tolerance ends where CI was told: if notify_github_changed ran for a webhook (while an update was in flight, so it '
+    'only recorded github_changed) after the fact last changed, then every merge decided in a LATER entry point must rest on '
+    'a read of that fact -- the running loop iterates on the flag, or an exception leaves the flag set for the next entry '
+    'point -- unless a refresh that started after the webhook did not run to its end (injected fault on refs/pulls/graphql, '
+    'or an exception inside _update_github): that is the failed-refresh case above.  A merge decided inside the entry point '
+    'the webhook arrived in (same loop iteration, before the follow-up refresh) stays the inherent race',
     "CI's own commit status is CI's report of its test batch: if CI's latest POST of it for the head was lost to an injected "
     'fault, the own-status clause is judged by what CI tried to post (own_status_post_lost_before_merge) and the batch '
     'ground truth alone decides "tested"; an own context written by someone else after that lost POST stays strict',
@@ -159,10 +180,16 @@ class World:
         self.drive_merges0 = 0          # gh.n_merge_shas when the current entry point started
         self.in_drive = None
         self.faults = F.FaultPlan(G.gidgethub, on_fire=self.on_fault)
+        self.reentry = F.ReentryPlan()
+        self.drive_no = 0               # entry points of the service driven so far
+        self.tasks = []                 # handler tasks started from inside a client call
+        self.accept_t = None            # tick at which CI last accepted a GitHub webhook WHILE an update was running
+        self.accept_drive = -1          # ... and the entry point that was running then
+        self.read_fail_start_t = -1     # start tick (refs GET sent) of the latest refresh that did not run to its end
         self.gh = F.FakeGitHub(G.gidgethub, ci_context=G.GITHUB_STATUS_CONTEXT, ci_required=bool(cfg.get('ci_required', 1)),
                                filler=int(cfg.get('filler', 0)), dismiss_stale=bool(cfg.get('dismiss_stale', 0)),
-                               monitor=self.monitor, faults=self.faults)
-        self.svc = F.FakeBatchService(env.Batch, lambda: self.gh._tick(), faults=self.faults)
+                               monitor=self.monitor, faults=self.faults, reentry=self.reentry)
+        self.svc = F.FakeBatchService(env.Batch, lambda: self.gh._tick(), faults=self.faults, reentry=self.reentry)
         self.db = F.FakeDB()
         self.bc = self.svc.client()
         self.wb = None
@@ -179,6 +206,8 @@ class World:
         self.classes.add('fault_fired')
         self.classes.add(f'fault:{side}:{cls}')
         self.classes.add(f'fault_kind:{kind}')
+        if side == 'gh' and cls in ('refs', 'pulls', 'graphql'):
+            self.read_fail_start_t = self.gh.refs_attempt_t      # this refresh will not run to its end
         if self.gh.n_merge_shas > self.drive_merges0:
             self.classes.add('fault_after_merge')        # same entry point, after a merge GitHub accepted
             if cls == 'refs':
@@ -195,6 +224,7 @@ class World:
         self.gh.call_budget = 3000       # a terminating update of <= 4 PRs makes a few dozen GitHub calls
         self.drive_merges0 = self.gh.n_merge_shas
         self.in_drive = which
+        self.drive_no += 1
         if self.refresh_failed:
             self.classes.add(f'{ {"github": "github_changed", "batch": "batch_changed", "update": "periodic_update"}[which] }'
                              '_after_failed_refresh')
@@ -209,6 +239,8 @@ class World:
             if self.gh.refs_read != refs_before and '_update_github' not in names:
                 self.refresh_aborted = None
                 self.refresh_failed = False
+            if '_update_github' in names:
+                self.read_fail_start_t = self.gh.refs_attempt_t
 
         try:
             self.env.loop.run_until_complete(fn(self.db, self.bc, self.gh, self.frozen))
@@ -242,6 +274,64 @@ class World:
         finally:
             self.in_drive = None
             self.faults.end_entry_point()
+            self.reentry.end_entry_point()
+            self.finish_tasks()
+
+    def finish_tasks(self):
+        """Handler tasks started inside a client call.  While an update is running the real entry points only set a flag and
+        return, so each task is normally finished when control returns to the suspended call; whatever is not is run to
+        its end here (the service is one event loop: nothing is left half-way between two ops of a history)."""
+        tasks, self.tasks = self.tasks, []
+        pending = [t for t in tasks if not t.done()]
+        if pending:
+            self.classes.add('reentrant_handler_ran_an_update_of_its_own')
+            self.env.loop.run_until_complete(self.env.asyncio.gather(*pending, return_exceptions=True))
+        for t in tasks:
+            e = t.exception()
+            if e is not None and not isinstance(e, (AssertionError, ValueError)) and not self.faults.is_injected(e):
+                raise self.env.F.HarnessBug(f're-entrant handler raised {type(e).__name__}: {e}') from e
+
+    async def reenter(self, inner, side, cls, when):
+        """An event lands while the service is suspended in a client call (armed by op `during`): ground truth changes now,
+        and for a delivered event GitHub's webhook / Batch's callback reaches the aiohttp server now, which runs the handler
+        as a task of its own: ci.py's pull_request / push / pull_request_review callbacks -> wb.notify_github_changed,
+        batch_callback_handler -> wb.notify_batch_changed.  With an update in flight both only set a flag and return."""
+        asyncio = self.env.asyncio
+        self.classes.add(f'event_during_{"github" if side == "gh" else "batch"}_call')
+        self.classes.add(f'reentrant:{cls}:{when}')
+        res = self.apply(inner, reentrant=True)
+        if res is None:
+            self.classes.add('reentrant_event_skipped')
+            return
+        self.classes.add(f'reentrant_event:{inner[0]}')
+        note, deliver = res
+        if note == 'update' or not deliver:
+            self.classes.add('reentrant_event_without_notification')      # statuses have no webhook; or the webhook is lost
+            return
+        wb = self.wb
+        was_updating = wb.updating
+        fn = wb.notify_github_changed if note == 'github' else wb.notify_batch_changed
+        task = self.env.loop.create_task(fn(self.db, self.bc, self.gh, self.frozen))
+        self.tasks.append(task)
+        await asyncio.sleep(0)
+        if was_updating:
+            if not task.done():
+                raise self.env.F.HarnessBug('notify_* did not return at once although an update was running')
+            if note == 'github':
+                self.classes.add('webhook_while_updating')
+                self.accept_t = self.gh._tick()
+                self.accept_drive = self.drive_no
+            else:
+                self.classes.add('batch_callback_while_updating')
+
+    def owed(self, changed_t):
+        """True if CI owes a fresh read of a GitHub fact that last changed at changed_t: a GitHub webhook that came after the
+        change was accepted by notify_github_changed while an update was running (github_changed set, "already updating"),
+        the entry point that was running then is over -- the running loop and the follow-up refresh the flag stands for
+        have finished, the service has been idle since -- and no refresh started after the webhook failed (the existing
+        failed-refresh tolerance).  A merge decided in the entry point the webhook arrived in stays the inherent race."""
+        return (self.accept_t is not None and changed_t <= self.accept_t and self.accept_drive < self.drive_no
+                and self.read_fail_start_t <= self.accept_t)
 
     # -- the oracle ----------------------------------------------------------------------------------------------------------
     def truth_mergeable(self, n):
@@ -270,6 +360,14 @@ class World:
             self.classes.add('merge_attempt_after_failed_refresh')
         if self.in_drive:
             self.classes.add(f'merge_attempt_in:{self.in_drive}')
+        if self.accept_t is not None:
+            # a webhook was accepted while an update was running; is this decision taken in that entry point or a later one
+            if self.accept_drive == self.drive_no:
+                self.classes.add('merge_decision_in_entry_point_of_webhook_while_updating')
+            elif self.read_fail_start_t > self.accept_t:
+                self.classes.add('merge_decision_after_webhook_while_updating:refresh_failed_since')
+            else:
+                self.classes.add('merge_decision_after_webhook_while_updating:read_owed')
         if pr is None:
             self.fails.append(('merge-unknown-pr', 'merges a pull request', f'PUT merge for PR {n} that never existed'))
             return
@@ -290,7 +388,16 @@ class World:
         def judge(ok, changed_t, read_t, sig, clause, msg, fact):
             if ok:
                 return
-            if changed_t > read_t:
+            if changed_t > read_t and self.owed(changed_t):
+                # CI never read the change, but it was told: the webhook was accepted while an earlier update was running
+                sig = f'webhook-accepted-while-updating-not-honoured:{fact}'
+                self.classes.add('owed_refresh_judged')
+                att['strict'].append(sig)
+                self.fails.append((sig, clause + ' (a change whose webhook CI accepted while it was updating is re-read before '
+                                   'any later merge decision)',
+                                   f'{msg}; changed at tick {changed_t}, last read by CI at {read_t}, webhook accepted at '
+                                   f'{self.accept_t} during entry point #{self.accept_drive}, now #{self.drive_no}. {ctx}'))
+            elif changed_t > read_t:
                 att['stale'].append(fact)
                 self.classes.add(f'stale_view:{fact}')
                 if self.refresh_failed:
@@ -355,6 +462,7 @@ class World:
                                f'{gh.merges_since_refs_read} merge(s) already succeeded since CI last read the target branch. {ctx}'))
         elif pr['head_t'] > gh.pulls_read:
             # CI has not seen the current head yet: whatever it tested is not this commit; GitHub answers 409
+            # (if CI owes the read, the head clause above has flagged it)
             att['stale'].append('head')
             self.classes.add('stale_view:head')
         elif not green_head:
@@ -379,11 +487,17 @@ class World:
         self.skipped += 1
         self.classes.add('has_skipped_op')
 
-    def apply(self, op):
+    REENTRANT_KINDS = ('open', 'push', 'close', 'reopen', 'review', 'label', 'status', 'batch', 'deploy', 'target')
+
+    def apply(self, op, reentrant=False):
+        """reentrant=True (from `reenter`, inside a client call): only the ground-truth part of an event op is performed and
+        (notification path, deliver flag) is returned instead of driving the service; None = skipped."""
         gh, svc = self.gh, self.svc
         kind = op[0]
         deliver = bool(op[-1]) if len(op) > 1 else True
         note = None
+        if reentrant and kind not in self.REENTRANT_KINDS:
+            raise self.env.F.HarnessBug(f'op {op!r} cannot happen inside a client call')
         if kind == 'open':
             if len(gh.prs) >= MAX_PRS:
                 return self.skip()
@@ -500,6 +614,20 @@ class World:
             if nfail > 1:
                 self.classes.add('fault_burst_or_outage')
             return
+        elif kind == 'during':
+            # RE-ENTRANT DELIVERY: the event op `inner` happens during the (skip+1)-th upcoming client call of class cls;
+            # when='post': before that request is served (answer carries the change), 'pre': after the answer was computed
+            _, cls, skip, when, inner = op
+            if inner[0] not in self.REENTRANT_KINDS:
+                raise self.env.F.HarnessBug(f'malformed op {op!r}')
+            side = 'batch' if cls in self.env.F.BATCH_CLASSES or cls == 'batch-any' else 'gh'
+            inner = list(inner)
+
+            async def fn(side_, cls_, when_, inner=inner):
+                await self.reenter(inner, side_, cls_, when_)
+            self.reentry.arm(side, 'any' if cls.endswith('-any') else cls, int(skip), when, fn, 3)
+            self.classes.add('reentry_armed')
+            return
         elif kind == 'nb':
             self.drive('batch')
             return
@@ -508,6 +636,8 @@ class World:
             return
         else:
             raise self.env.F.HarnessBug(f'unknown op {op!r}')
+        if reentrant:
+            return note, deliver
         if deliver:
             self.drive(note)
         else:
@@ -585,7 +715,10 @@ _TABLE = [(18, 'green'), (22, 'tick'), (24, 'green_silent'), (32, 'approve'), (3
           (100, 'F_check_run_in_progress'),
           # fault injection and the notifications that matter after a failed refresh (added behind the original table)
           (106, 'fault'), (109, 'nb'), (110, 'ng'), (113, 'F_two_green'), (117, 'F_fault_then_event'),
-          (121, 'F_two_green_fault_notify'), (124, 'F_outage_then_events')]
+          (121, 'F_two_green_fault_notify'), (124, 'F_outage_then_events'),
+          # re-entrant delivery: an event lands while the service is suspended inside a client call
+          (128, 'during'), (134, 'F_during_then_trigger'), (142, 'F_during_refresh_then_green'),
+          (145, 'F_during_fault_then_trigger')]
 _W = _TABLE[-1][0]
 
 # call classes a fault can be aimed at, weighted (41 slots = range of operand b): the target-branch read and the untargeted
@@ -604,6 +737,19 @@ def fault_op(a, b, c, d, e):
     nfail = (1, 1, 2, 99)[d % 4]
     kind = _B_KINDS[e % 2] if batch else _GH_KINDS[e % 5]
     return ['fault', cls, skip, nfail, kind, 1 if nfail == 99 else 3]
+
+
+# call classes a re-entrant delivery can be aimed at (41 slots = range of operand b): mostly the three reads of a refresh
+# (refs, pulls list, per-PR GraphQL), then the writes and the Batch calls; every class of both clients occurs
+_DURING_CLS = (['graphql'] * 9 + ['pulls'] * 6 + ['refs'] * 6 + ['gh-any'] * 5 + ['merge'] * 2 + ['status'] * 2 + ['assignees']
+               + ['list'] * 3 + ['bstatus'] * 2 + ['submit'] * 2 + ['cancel'])
+_DURING_CLS = _DURING_CLS + ['batch-any'] * (41 - len(_DURING_CLS))
+_REFRESH_CLS = ('graphql', 'graphql', 'pulls', 'refs', 'gh-any')
+
+
+def during_op(cls, a, c, d, inner):
+    skip = (a + c) if cls.endswith('-any') else (0, 0, 1, 2, 3)[c % 5]
+    return ['during', cls, skip, ('pre', 'post')[d % 2], inner]
 
 
 def decode(t):
@@ -636,6 +782,23 @@ def decode(t):
 
     green = ['batch', a, 0, 1]
     event = [green, ['tick'], ['ng'], ['nb'], push(1), target(1), ['review', a, 0, 1]][e % 7]
+    if name in ('during', 'F_during_then_trigger', 'F_during_refresh_then_green', 'F_during_fault_then_trigger'):
+        lost = 0 if (a + b + c) % 6 == 0 else 1          # 1 of 6: the webhook / callback of the mid-call event is lost
+        inner = [['label', a, c % 2, 1, lost], ['review', a, 1 + c % 3, lost], push(lost), target(lost),
+                 ['status', a, b % 4, 1 + c % 4, 0, lost], ['close', a, lost], ['batch', a, (0, 0, 1, 2)[b % 4], lost]][e % 7]
+        trigger = [['ng'], ['tick'], green, ['nb'], ['review', a, 0, 1], push(1), ['label', a, 2 + c % 3, 1, 1]][(b + d) % 7]
+        if name == 'during':
+            return [during_op(_DURING_CLS[b % len(_DURING_CLS)], a, c, d, inner)]
+        if name == 'F_during_then_trigger':
+            return [during_op(_DURING_CLS[b % len(_DURING_CLS)], a, c, d, inner), trigger]
+        if name == 'F_during_fault_then_trigger':
+            return [during_op(_DURING_CLS[b % len(_DURING_CLS)], a, c, d, inner), fault_op(a, b // 2, c, d, e), trigger,
+                    [['nb'], green, ['tick']][d % 3]]
+        # the change lands while a refresh is reading GitHub; afterwards, from idle, a test batch turns green
+        inner = [['label', a, c % 2, 1, lost], ['review', a, 1 + c % 3, lost], push(lost), target(lost), ['close', a, lost],
+                 ['label', a, c % 2, 1, lost], ['review', a, 1 + c % 3, lost]][e % 7]
+        return [during_op(_REFRESH_CLS[b % len(_REFRESH_CLS)], a, c, d, inner), [['ng'], ['tick'], ['review', a, 0, 1]][(b + d) % 3],
+                green]
     if name == 'fault':
         return [fault_op(a, b, c, d, e)]
     if name == 'F_two_green':
